@@ -160,7 +160,7 @@ def translate(repo, outdir):
 #          1 statement option, 2 engine option, 3 no option at all (map must be [])
 K_SEL, K_JOIN, K_INS, K_INSSEL, K_UPD, K_DEL, K_IMV, K_CREATE, K_DROP, K_INDEX, K_DEFAULT, K_MARKER = range(12)
 DDL_KINDS = (K_CREATE, K_DROP, K_INDEX)
-TWO_SLOT = (K_JOIN, K_INSSEL, K_UPD, K_DEFAULT)
+TWO_SLOT = (K_JOIN, K_INSSEL, K_UPD, K_DEFAULT, K_IMV)
 
 
 def O(x):
@@ -238,15 +238,16 @@ def gen_cases(rng, tier):
                 cases.append({"in": [0, st, ops2], "kind": "pairs-evict"})
     # ---- every kind x a few fixed maps, None-flip histories ----
     for kind in range(K_MARKER + 1):
-        for a, b in ((None, "other"), ("per_user", None), ("per_user", "other")):
+        for a, b in ((None, "other"), ("per_user", None), ("per_user", "other"))[: 3 if tier == "thorough" else 2]:
             st = [[kind, slot(a), slot(b)]]
             for m1, m2 in (({None: "s1", "per_user": "s2", "other": "s3"}, {"per_user": "s3"}),
                            ({"per_user": "s1", "other": "s2"}, {None: "s2", "other": "s1"}),
-                           ({"other": "per_user", "per_user": "s3"}, {})):
+                           ({"other": "per_user", "per_user": "s3"}, {}),
+                           ({"per_user": "", "other": None, None: "s2"}, {None: None, "per_user": "order"})):
                 ops = [[0, 0, mk_map(m1), 0], [0, 0, mk_map(m2), 0 if m2 else 3], [0, 0, mk_map(m1), 1]]
                 cases.append({"in": [0, st, ops], "kind": "kinds"})
     # ---- random ----
-    nrand = 2500 if tier == "thorough" else 330
+    nrand = 2500 if tier == "thorough" else 240
     for _ in range(nrand):
         special = {}
         r = rng.random()
@@ -392,7 +393,9 @@ def _build(kind, sa_, sb_):
     if kind == K_DEL:
         return sa.delete(a).where(a.c.id == 1), None
     if kind == K_IMV:
-        return sa.insert(a).returning(a.c.id, a.c.v), [{"v": "p"}, {"v": "q"}]
+        # the VALUES expression itself holds a schema placeholder (rendered per batch)
+        sub = sa.select(b.c.v).where(b.c.id == 1).scalar_subquery()
+        return sa.insert(a).values(v=sub).returning(a.c.id, a.c.v), [{"id": 90}, {"id": 91}]
     if kind == K_CREATE:
         w = sa.Table("w", sa.MetaData(), sa.Column("id", sa.Integer, primary_key=True), sa.Column("v", sa.String),
                      schema=a.schema)
@@ -443,7 +446,10 @@ def _run(stmt, params, m, route):
             elif isinstance(inner, exc.CompileError):
                 res["code"] = 3 if "Square bracket" in msg else 6 if "no default schema" in msg else 8
             else:
-                raise
+                res["code"] = 8
+        except Exception as ex:  # anything else is an unexpected failure of the execution
+            res["code"] = 8
+            res["msg"] = "%s: %s" % (type(ex).__name__, ex)
         finally:
             c.rollback()
     res["sql"] = list(log)
